@@ -397,31 +397,24 @@ theorem gen_schedPair (sched : List Nat) :
     QGen.C08.qpt_target_item ≠ QGen.C08.qpt_state_item ∧ QGen.C08.qpt_target_item ≠ QGen.C08.qpt_povm_item :=
   ⟨rfl, rfl, rfl, rfl, rfl, rfl, rfl, by decide, by decide, by decide, by decide⟩
 
-/-- C08.src-f `_partial`: the constants of `cqpt_to_cqmpt` (`d_qpt = c[:, :dim²]`, `e_qpt = c[:, dim²:]`, `m−1` resp. `m`
-diagonal blocks, `b_1 = d_qpt.T[0]`), `num_outcomes = povm outcomes × m-process outcomes`, and the model's `cqptToCqmpt` /
-`qmptLastRow` written with them.
-Missing: the block_diag / hstack / vstack assembly itself is hand-modelled, not generated; it is pinned by the
-translator's exact-statement check of `cqpt_to_cqmpt` (any edit there makes the translator raise) and by the `coeffs`
-correspondence, and `qmpt_affine` proves the hand model right. -/
-theorem gen_qmpt_consts_partial [Neg K] [Zero K] (d m p : Nat) (c : List K) (cq : List (List K)) :
+/-- C08.src-f `cqpt_to_cqmpt` as translated statement by statement from the source (`d_qpt / e_qpt` column slices,
+`block_diag(*[c_qpt]*(m−1))`, the zero paddings, `d_dash = hstack([-d_qpt, 0])`, `a_1 = hstack([d_dash]*(m−1) + [e_qpt])`,
+`vstack`, `b_0`, `b_1 = d_qpt.T[0]`; resp. `block_diag(*[c_qpt]*m)` without the flag) produces exactly the rows and offsets
+of the hand model `cqptToCqmpt` that `qmpt_affine` is proved about (`dim ≥ 1`, rows `c` of length `dim⁴`). A tile / repeat /
+slice edit of the source changes the generated definition and breaks this proof. -/
+theorem gen_cqpt_to_cqmpt [Field K] (flag : Bool) (dim m : Nat) (cq : List (List K)) (hd : 0 < dim)
+    (hw : ∀ c ∈ cq, c.length = dim ^ 2 * dim ^ 2) :
+    (QGen.C08.cqpt_to_cqmpt flag dim m cq).map (fun ab => ab.1.zip ab.2) = cqptToCqmpt flag (dim ^ 2) m cq := by
+  cases flag
+  · exact gen_cqpt_false dim m cq (dim ^ 2 * dim ^ 2) hw rfl
+  · exact gen_cqpt_true dim m cq hd hw
+
+/-- C08.src-f' the remaining constants read from the QMPT source: `num_outcomes = povm outcomes × m-process outcomes`,
+and the column constants used above. -/
+theorem gen_qmpt_constants (d m p : Nat) :
     QGen.C08.qmpt_d_cols d = d ^ 2 ∧ QGen.C08.qmpt_e_from d = d ^ 2 ∧ QGen.C08.qmpt_blocks_flag m = m - 1 ∧
-    QGen.C08.qmpt_blocks m = m ∧ QGen.C08.qmpt_b1_col = 0 ∧ QGen.C08.qmpt_num_outcomes p m = p * m ∧
-    qmptLastRow (QGen.C08.qmpt_d_cols d) m c =
-      (match c with
-       | c0 :: _ => some (tile (QGen.C08.qmpt_blocks_flag m)
-            (lneg (c.take (QGen.C08.qmpt_d_cols d)) ++
-              zeros (QGen.C08.qmpt_d_cols d * QGen.C08.qmpt_d_cols d - QGen.C08.qmpt_d_cols d)) ++
-            c.drop (QGen.C08.qmpt_e_from d), c0)
-       | [] => none) ∧
-    cqptToCqmpt false (QGen.C08.qmpt_d_cols d) m cq =
-      some ((List.range (QGen.C08.qmpt_blocks m)).flatMap fun k => cq.map fun c' =>
-        (blockRow (QGen.C08.qmpt_d_cols d * QGen.C08.qmpt_d_cols d) (QGen.C08.qmpt_blocks m) k c', (0 : K))) ∧
-    cqptToCqmpt true (QGen.C08.qmpt_d_cols d) m cq =
-      (do let a1 ← cq.mapM (qmptLastRow (QGen.C08.qmpt_d_cols d) m)
-          pure (((List.range (QGen.C08.qmpt_blocks_flag m)).flatMap fun k => cq.map fun c' =>
-            (blockRow (QGen.C08.qmpt_d_cols d * QGen.C08.qmpt_d_cols d) (QGen.C08.qmpt_blocks_flag m) k c' ++
-              zeros (QGen.C08.qmpt_d_cols d * QGen.C08.qmpt_d_cols d - QGen.C08.qmpt_e_from d), (0 : K))) ++ a1)) :=
-  ⟨rfl, rfl, rfl, rfl, rfl, rfl, rfl, rfl, rfl⟩
+    QGen.C08.qmpt_blocks m = m ∧ QGen.C08.qmpt_b1_col = 0 ∧ QGen.C08.qmpt_num_outcomes p m = p * m :=
+  ⟨rfl, rfl, rfl, rfl, rfl, rfl⟩
 
 /-- C08.src-g the headline identity on the generated QST row: what the source's expressions put into the dictionary
 predicts the Born value on the state built from `var`. -/
@@ -434,6 +427,10 @@ theorem gen_qst_row_affine [Field K] (flag : Bool) (r : K) (vec var a : List K) 
 
 example : schedPair "qst" [0, 2] = some (0, 2) ∧ schedPair "qpt" [3, 0, 1] = some (3, 1) ∧ schedPair "povmt" [4, 0] = some (4, 0) ∧
     schedPair "qpt" [3, 0] = none := by decide
+/-- the generated `cqpt_to_cqmpt` on the toy instance (`dim = 1` would be degenerate: here `dim² = 2` is not a square, so
+the instance is evaluated directly; the hypotheses of `gen_cqpt_to_cqmpt` hold e.g. for `dim = 1`, rows of length 1) -/
+example : (QGen.C08.cqpt_to_cqmpt (K := Rat) true 1 2 [[3], [5]]).map (fun ab => ab.1.zip ab.2) =
+    cqptToCqmpt true 1 2 [[3], [5]] := by decide +kernel
 example : QGen.C08.qst_row true (2 : Rat) [1, 3, 5] = some ([3, 5], 1/2) := by decide +kernel
 example : QGen.C08.qpt_row true 2 ([1, 2, 3, 4] : List Rat) = some ([3, 4], 1) := by decide +kernel
 example : QGen.C08.povmt_row true (2 : Rat) 3 [1, 2] 2 = some ([-1, -2, -1, -2], 2) := by decide +kernel
